@@ -31,7 +31,7 @@ def field_path_from(n, rec):
 MEMFILL = ("memset", "__builtin_memset", "memcpy", "__builtin_memcpy", "memmove", "__builtin_memmove")
 
 
-def written_paths(f, rec, addr_calls=True, prog=None):
+def written_paths(f, rec, addr_calls=True, prog=None, ptr_calls=None):
     """{path: [(b, i, line)]} of field paths of `rec` written in f: assignments, ++/--,
     memset/memcpy destinations, and (addr_calls) &field handed to a callee."""
     out = {}
@@ -51,7 +51,10 @@ def written_paths(f, rec, addr_calls=True, prog=None):
                 args = x.get("a", [])
                 if x.get("c") in MEMFILL and args:
                     add(field_path_from(args[0], rec), b, i, x.get("l"))
-                elif addr_calls:
+                if ptr_calls and x.get("c") in ptr_calls and len(args) > ptr_calls[x["c"]]:
+                    # callee known (checked separately) to re-establish the whole pointee
+                    add(field_path_from(args[ptr_calls[x["c"]]], rec), b, i, x.get("l"))
+                if x.get("c") not in MEMFILL and addr_calls:
                     callee = None
                     if prog is not None and x.get("c") and prog.functions.get(x["c"]):
                         callee = prog.functions[x["c"]][0]
@@ -99,18 +102,19 @@ def success_returns(f):
     return [(b, i) for b, i, r in f.returns() if not ret_is_error(f, b, i, r)]
 
 
-def reset_completeness(prog, res, rule, rec, op_fns, reset_fn, helper_fns, persist, min_fields, whole_memset=False):
+def reset_completeness(prog, res, rule, rec, op_fns, reset_fn, helper_fns, persist, min_fields, whole_memset=False,
+                       ptr_calls=None, skip_edges=None, label=None):
     """op_fns: functions whose writes define the 'dirty' set; reset_fn: Function that must
     re-establish them (writes found in reset_fn itself on every path to a success return,
     or anywhere in a helper it calls on every such path); persist: {path-prefix tuple: reason}."""
     dirty = {}
     for f in op_fns:
-        for p, sites in written_paths(f, rec).items():
+        for p, sites in written_paths(f, rec, prog=prog).items():
             dirty.setdefault(p, []).append((f.name, sites[0][2]))
-    own = written_paths(reset_fn, rec)
+    own = written_paths(reset_fn, rec, prog=prog, ptr_calls=ptr_calls)
     helper_paths = {}
     for h in helper_fns:
-        hp = written_paths(h, rec)
+        hp = written_paths(h, rec, prog=prog)
         call_sites = reset_fn.call_roots(h.name)
         for p in hp:
             helper_paths.setdefault(p, []).extend(call_sites)
@@ -123,7 +127,10 @@ def reset_completeness(prog, res, rule, rec, op_fns, reset_fn, helper_fns, persi
         who = ", ".join(sorted({w for w, _ in dirty[p]}))[:120]
         why = None
         for pp, reason in persist.items():
-            if p[:len(pp)] == pp:
+            if pp and pp[-1] == "$":
+                if p == pp[:-1]:       # exact path only
+                    why = reason
+            elif p[:len(pp)] == pp:
                 why = reason
         if why:
             res.ok(rule, key, reset_fn.loc, "persists by design: " + why)
@@ -136,7 +143,11 @@ def reset_completeness(prog, res, rule, rec, op_fns, reset_fn, helper_fns, persi
         for rp, sites in helper_paths.items():
             if covers(rp, p):
                 via += sites
-        ok = bool(via) and reset_fn.must_pass(via_roots=via, targets=targets)
+        se = set()
+        for pp, edges in (skip_edges or {}).items():
+            if p[:len(pp)] == pp:
+                se |= set(edges)
+        ok = bool(via) and reset_fn.must_pass(via_roots=via, via_edges=se, targets=targets)
         res.check(ok, rule, key, reset_fn.loc,
                   "written by %s; re-established on every path of %s" % (who, reset_fn.name),
                   "field written by %s is not re-established by %s on every path to a successful return "
